@@ -1312,12 +1312,10 @@ func stripSensitiveHeadersOnRedirect(req *Request, initialHost []byte, redirectU
 	req.Header.Del(HeaderProxyAuthorization)
 	req.Header.Del(HeaderWWWAuthenticate)
 
-	// With normalizing disabled the keys are stored as spelled by the caller
+	// Keys stored while normalizing was disabled keep the caller's spelling
 	// ("authorization", "COOKIE2", ...) and Del matches only the exact
-	// spelling. Header names are case-insensitive, so drop every spelling.
-	if !req.Header.disableNormalizing {
-		return
-	}
+	// spelling. Header names are case-insensitive, so drop every spelling,
+	// whether or not normalizing is disabled right now.
 	for i := 0; i < len(req.Header.h); {
 		if key := req.Header.h[i].key; isSensitiveRedirectHeader(key) {
 			req.Header.h = delAllArgsStable(req.Header.h, string(key))
